@@ -193,12 +193,13 @@ class CondV:
 class RecV:
     """Spec-side worklist record: record type + list of field strings (joined by ';' when printed)."""
 
-    __slots__ = ("kind", "fields", "sep")
+    __slots__ = ("kind", "fields", "sep", "tail")
 
-    def __init__(self, kind, fields, sep=";"):
+    def __init__(self, kind, fields, sep=";", tail=None):
         self.kind = kind
         self.fields = list(fields)
         self.sep = sep
+        self.tail = tail  # optional SeqV of further fields (symbolic number of them)
 
 
 class WellV:
